@@ -1,6 +1,6 @@
 #!/bin/bash
 # usage: tools/seedtest.sh <dir with patch.diff> <Cxx> [tier]   -- apply to /repo, run check, revert
-d=$1; pid=$2; tier=${3:-quick}
+d=$(realpath $1); pid=$2; tier=${3:-quick}
 cd /repo && git status --short | grep -q . && { echo "repo dirty"; exit 9; }
 git apply "$d/patch.diff" || { echo "APPLY FAILED"; exit 9; }
 cd /verif && timeout 1800 ./check $pid --tier $tier > /tmp/seedtest.out 2>&1; rc=$?
